@@ -682,3 +682,68 @@ def table_reuse(sc, base, seed, pid="C01"):
 
 def table_reuse_c17(sc, base, seed):
     return table_reuse(sc, base, seed, pid="C17")
+
+
+def numeric_labels(sc, base, seed, pid="C05"):
+    """a table whose sector labels are integers (ten or more of them: '10' sorts before '2' as text), inventories given per
+    sector with one declared infinite: every duration belongs to the input it is given for, the infinite one never limits
+    production, and the run is the run of the same table under text labels in the same order"""
+    out = []
+    if seed % 3 != 0:
+        return out
+    import pandas as pd
+    import pymrio
+    from boario import event as bev
+    from boario.extended_models import ARIOPsiModel
+    rng = random.Random(seed + 41)
+    m, n = rng.choice([1, 2]), rng.choice([10, 11, 12])
+    N = m * n
+    Z = np.array([[rng.uniform(0.5, 10.0) for _ in range(N)] for _ in range(N)]) * 1000.0
+    Y = np.array([[rng.uniform(20.0, 60.0)] for _ in range(N)]) * 1000.0 * m
+    regs = scen.REG_NAMES[:m]
+    inf_pos = rng.randrange(n)
+    durs = [rng.choice([90, 60, 30, 10, 5]) for _ in range(n)]
+    loss = rng.choice([0.6, 0.8])
+
+    def run(sec_labels):
+        ind = pd.MultiIndex.from_product([regs, sec_labels], names=["region", "sector"])
+        fdi = pd.MultiIndex.from_product([regs, ["gov"]], names=["region", "category"])
+        io = pymrio.IOSystem()
+        io.Z = pd.DataFrame(Z, index=ind, columns=ind)
+        io.Y = pd.DataFrame(np.tile(Y / m, (1, m)), index=ind, columns=fdi)
+        io.x = pd.DataFrame(Z.sum(axis=1) + Y.sum(axis=1), index=ind, columns=["indout"])
+        io.A = pymrio.calc_A(io.Z, io.x)
+        inv = {lab: ("inf" if j == inf_pos else durs[j]) for j, lab in enumerate(sec_labels)}
+        keys = list(inv)
+        random.Random(seed + 43).shuffle(keys)
+        model = ARIOPsiModel(io, inventory_dict={kk: inv[kk] for kk in keys}, psi_param=0.9, inventory_restoration_tau=30)
+        sim = Simulation(model, n_temporal_units_to_sim=14)
+        imp = pd.Series({(r, sec_labels[inf_pos]): loss for r in regs})
+        imp.index = pd.MultiIndex.from_tuples(list(imp.index), names=["region", "sector"])
+        sim.add_event(bev.from_series(imp, event_type="arbitrary", occurrence=2, duration=6, recovery_tau=3, recovery_function="linear"))
+        quiet_loop(sim)
+        return model, {r: getattr(sim, r).to_numpy(dtype=float).copy() for r in ("production_realised", "limiting_inputs", "final_demand_unmet")}
+
+    try:
+        m_int, r_int = run(list(range(1, n + 1)))
+        m_txt, r_txt = run([f"s{j:02d}" for j in range(1, n + 1)])
+    except Exception as e:
+        out.append(viol(pid, 0, f"a table with integer sector labels cannot be simulated: {type(e).__name__}: {str(e)[:150]}"))
+        return out
+    want = np.array([np.inf if j == inf_pos else float(durs[j]) for j in range(n)])
+    got = np.asarray(m_int.inv_duration, dtype=float).ravel()
+    if got.shape != want.shape or not np.array_equal(got, np.where(want <= 1, 2, want)):
+        out.append(viol(pid, 0, "integer sector labels: the inventory durations held by the model are not those given for each input",
+                        given=[float(v) for v in want], held=[float(v) for v in got]))
+    stock = np.asarray(m_int.inputs_stock, dtype=float)
+    if not np.isposinf(stock[inf_pos]).all():
+        out.append(viol(pid, 14, "integer sector labels: the input declared infinite has a finite inventory", input=inf_pos + 1))
+    for r in ("production_realised", "final_demand_unmet", "limiting_inputs"):
+        if not np.array_equal(r_int[r], r_txt[r], equal_nan=True):
+            out.append(viol(pid, 0, f"integer sector labels vs the same table under text labels in the same order: record {r} differs"))
+            break
+    return out
+
+
+def numeric_labels_c15(sc, base, seed):
+    return numeric_labels(sc, base, seed, pid="C15")
